@@ -38,7 +38,13 @@ impl Srv {
             let t0 = Instant::now();
             loop {
                 if let Ok(Some(_)) = child.try_wait() { break; }
-                if std::net::TcpStream::connect(("127.0.0.1", port)).is_ok() { return Srv { child, port, dir }; }
+                if std::net::TcpStream::connect(("127.0.0.1", port)).is_ok() {
+                    // the port may have been taken by a server of a concurrently running harness
+                    // (ours then fails to bind and exits): make sure the one that answers is our child
+                    std::thread::sleep(Duration::from_millis(25));
+                    if let Ok(Some(_)) = child.try_wait() { break; }
+                    return Srv { child, port, dir };
+                }
                 if t0.elapsed() > Duration::from_secs(8) { let _ = child.kill(); let _ = child.wait(); break; }
                 std::thread::sleep(Duration::from_millis(5));
             }
